@@ -10,7 +10,18 @@
                = THREEFISH             key = x<key>,x<tweak>   (`Threefish(key,tweak)`), blockbytes = 32 | 64 | 128: Model.Mode over
                                        Model.Threefish (model column), Spec.Mode over Threefish-256/512/1024 of Skein 1.3 (spec column)
       verb er = `enc(M);dec(enc(M))` (one encryption, one decryption with an equally configured object)
+      verb dd = `dec(C);dec(C');dec(C)` on ONE object, C' = C with its whole blocks (behind the IV block for CBC / CTS_CBC) reversed
+      verb ee = `enc(M);enc(M');enc(M);dec(enc(M))` on ONE object, M' = M with its whole blocks reversed
       verb xd = decryption, with the padding scheme, of the nopadding-encryption of <msg> (= unpad(<msg>): good and damaged paddings)
+    ctrseq <cipher> <blockbytes> <key> <counter or -> <step> <step> …
+        ONE object `CTR(cipher[,counter])` through a history of public calls (Model.Mode.CTR.Obj.run); the outputs of the steps joined
+        by `;` (`ERR` alone when the constructor raises).  Steps:
+          e:x<msg>  obj.enc(msg)            d:x<msg>  obj.dec(msg)        b  obj.dec(<result of the latest successful enc step>)
+          s:<nonce>:<count>  obj.counter.setup(nonce,count)   (`-` = None)          -> `.`
+          a:<iv>    obj.counter = DefaultCounter(obj.len,iv)  (`-` = no iv)          -> `.` or ERR (the object keeps its counter)
+          r         obj.counter.reset()  -> `.`               c  obj.counter()       -> the counter block, or `None`
+        spec column: SP 800-38A CTR (Spec.Mode.ctrOf) with the counter block IN FORCE at each enc/dec step — nonce ‖ count as the
+        latest constructor / setup / assignment left it — over the Spec cipher; `-` when a step is outside the standard's domain
     modert <mode> <cipher name> <blockbytes> <key> <iv or -> <padding> <msg>
         -> the summary `rt-ok len=<n>` the length laws predict for a real cipher of that block length
 -/
@@ -56,6 +67,15 @@ def ops? (mode : String) (c : BlockCipher) (iv : Option (List Nat)) (s : Scheme)
   | "CTR", iv => if s = .no then some (Mode.CTR.enc c iv, Mode.CTR.dec c iv) else none
   | _, _ => none
 
+/-- X with its whole blocks in reverse order (keep: the first block stays in front; a partial tail stays behind) -/
+def revBlocks (n : Nat) (keep : Bool) (X : List Nat) : List Nat :=
+  let head := if keep then X.take n else []
+  let body := X.drop head.length
+  let q := body.length / n
+  head ++ ((List.range q).reverse.map fun i => (body.drop (i * n)).take n).flatten ++ body.drop (q * n)
+
+def keepsIv (mode : String) : Bool := mode == "CBC" || mode == "CTS_CBC"
+
 def modelRun (mode : String) (c : BlockCipher) (iv : Option (List Nat)) (s : Scheme) (verb : String) (m : List Nat) :
     Option String :=
   match ops? mode c iv s with
@@ -69,6 +89,10 @@ def modelRun (mode : String) (c : BlockCipher) (iv : Option (List Nat)) (s : Sch
       | none => none
     | "enc" | "enc2" => some (fmtR (e m))
     | "dec" => some (fmtR (d m))
+    -- one object, several calls: the mode objects keep nothing a later call reads (the paddings of this stream do not read
+    -- the padding state in `remove`), so each call is the stateless function
+    | "dd" => some (";".intercalate [fmtR (d m), fmtR (d (revBlocks c.len (keepsIv mode) m)), fmtR (d m)])
+    | "ee" => some (";".intercalate [fmtR (e m), fmtR (e (revBlocks c.len false m)), fmtR (e m), fmtR (e m >>= d)])
     | "rt" => some (fmtR (e m >>= d))
     | "er" =>
       match e m with
@@ -194,6 +218,70 @@ def instance? (cid : String) (n : Nat) (keys : List (List Nat)) : Option (Except
     | _, _ => none
   | _, _ => none
 
+/-! ### `ctrseq`: one CTR object, many calls -/
+open Model.Mode.CTR in
+def parseStep? (s : String) : Option (Step ⊕ Unit) :=       -- `inr ()` = dec of the latest enc result
+  match s.splitOn ":" with
+  | ["r"] => some (.inl .reset)
+  | ["c"] => some (.inl .call)
+  | ["b"] => some (.inr ())
+  | ["e", m] => (parseBytes? m).map fun m => .inl (.enc m)
+  | ["d", m] => (parseBytes? m).map fun m => .inl (.dec m)
+  | ["s", a, b] => do
+      let a ← parseIv? a
+      let b ← parseIv? b
+      pure (.inl (.setup a b))
+  | ["a", v] => (parseIv? v).map fun v => .inl (.assign v)
+  | _ => none
+
+open Model.Mode.CTR in
+def fmtOut : Out → String
+  | .bytes r => fmtR r
+  | .unit (.ok _) => "."
+  | .unit (.error _) => "ERR"
+  | .block (some b) => fmtBytes b
+  | .block none => "None"
+
+open Model.Mode.CTR in
+/-- the model column: the object threaded through the steps -/
+def seqModel (c : BlockCipher) : Obj → List Nat → List (Step ⊕ Unit) → List String
+  | _, _, [] => []
+  | o, last, st :: rest =>
+    let s : Step := match st with | .inl s => s | .inr _ => .dec last
+    let r := o.step c s
+    let last' := match s, r.1 with | .enc _, .bytes (.ok C) => C | _, _ => last
+    fmtOut r.1 :: seqModel c r.2 last' rest
+
+open Model.Mode.CTR in
+/-- the spec column: only the counter block in force (nonce, count) is carried from step to step -/
+def seqSpec (k : Spec.Mode.Cipher) : List Nat × List Nat → List Nat → List (Step ⊕ Unit) → Option (List String)
+  | _, _, [] => some []
+  | (nonce, count), last, st :: rest =>
+    let n := k.len
+    let zeros := List.replicate (n / 2) 0
+    let ctr (M : List Nat) : Option (List Nat) :=
+      if nonce.length + count.length == n && count.length > 0 && allBytes nonce && allBytes count then
+        some (Spec.Mode.ctrOf k nonce count M) else none
+    match st with
+    | .inl (.enc M) => do
+        let C ← ctr M
+        let r ← seqSpec k (nonce, count) C rest
+        pure (fmtBytes C :: r)
+    | .inl (.dec C) => do
+        let P ← ctr C
+        let r ← seqSpec k (nonce, count) last rest
+        pure (fmtBytes P :: r)
+    | .inr _ => do
+        let P ← ctr last
+        let r ← seqSpec k (nonce, count) last rest
+        pure (fmtBytes P :: r)
+    | .inl (.setup a b) => (seqSpec k (a.getD zeros, b.getD zeros) last rest).map ("." :: ·)
+    | .inl (.assign none) => (seqSpec k (zeros, zeros) last rest).map ("." :: ·)
+    | .inl (.assign (some v)) =>
+      if v.length == n then (seqSpec k (v.take (n / 2), v.drop (n / 2)) last rest).map ("." :: ·) else none
+    | .inl .reset => (seqSpec k (nonce, count) last rest).map ("." :: ·)
+    | .inl .call => none
+
 def handle : Handler := fun op args =>
   match op, args with
   | "mode", [mode, cid, n, key, iv, pad, verb, msg] => do
@@ -204,10 +292,41 @@ def handle : Handler := fun op args =>
       let m ← parseBytes? msg
       let (c, k) ← instance? cid n keys
       -- the two columns are independent computations: evaluate the spec column on a second thread
-      let sp := Task.spawn fun _ => specRun mode k iv s verb m
+      let joinSpec := fun (l : List String) => if l.any (· == "-") then "-" else ";".intercalate l
+      let sp := Task.spawn fun _ =>
+        match verb with
+        | "dd" => joinSpec [specRun mode k iv s "dec" m, specRun mode k iv s "dec" (revBlocks n (keepsIv mode) m), specRun mode k iv s "dec" m]
+        | "ee" => joinSpec [specRun mode k iv s "enc" m, specRun mode k iv s "enc" (revBlocks n false m), specRun mode k iv s "enc" m,
+                            specRun mode k iv s "rt" m]
+        | _ => specRun mode k iv s verb m
       let mr ← match c with
         | .ok c => modelRun mode c iv s verb m
-        | .error _ => (modelRun mode (Toy.rot n []) iv s verb []).map fun _ => "ERR"    -- the cipher constructor raised
+        | .error _ => (modelRun mode (Toy.rot n []) iv s verb []).map fun _ =>     -- the cipher constructor raised
+            if verb == "dd" then "ERR;ERR;ERR" else if verb == "ee" then "ERR;ERR;ERR;ERR" else "ERR"
+      pure (mr, sp.get)
+  | "ctrseq", cid :: n :: key :: ctor :: steps => do
+      let n ← parseNat? n
+      let keys ← (key.splitOn ",").mapM parseBytes?
+      let ctor ← parseIv? ctor
+      let steps ← steps.mapM parseStep?
+      let (c, k) ← instance? cid n keys
+      let sp := Task.spawn fun _ =>
+        match k with
+        | none => "-"
+        | some k =>
+          let start? : Option (List Nat × List Nat) :=
+            match ctor with
+            | none => some (List.replicate (k.len / 2) 0, List.replicate (k.len / 2) 0)
+            | some v => if v.length == k.len then some (v.take (k.len / 2), v.drop (k.len / 2)) else none
+          match start?.bind fun st => seqSpec k st [] steps with
+          | some outs => ";".intercalate outs
+          | none => "-"
+      let mr := match c with
+        | .error _ => "ERR"
+        | .ok c =>
+          match Mode.CTR.Obj.new c ctor with
+          | .error _ => "ERR"
+          | .ok o => ";".intercalate (seqModel c o [] steps)
       pure (mr, sp.get)
   | "modert", [mode, _cipher, n, _key, _iv, pad, msg] => do
       let n ← parseNat? n
